@@ -59,7 +59,11 @@ def gen_use_from_pat(rng, p, depth=2):
     toks = re.findall(r'#\(|\(|\)|\.\.\.|[^\s()]+', p)
     def datum(d):
         if d > 0 and rng.random() < 0.25:
-            return "(" + " ".join(datum(d - 1) for _ in range(rng.randrange(0, 3))) + ")"
+            items = [datum(d - 1) for _ in range(rng.randrange(0, 3))]
+            if rng.random() < 0.3:
+                # an argument that is itself a macro use (of a bundled form, or of m): it is matched and substituted AS WRITTEN
+                items = [rng.choice(["or", "and", "let", "when", "m", "begin"])] + items
+            return "(" + " ".join(items) + ")"
         return rng.choice(USE_ATOMS)
     prev_start = None
     stack = []
